@@ -89,6 +89,7 @@ class SolverWrapper:
     """
     # storing some defaults
     threads = 4
+    _highs_scheduler_threads = None  # thread count HiGHS's process-wide scheduler was last started with
     time_limit = float('inf')
     presolve = "choose"
     log_to_console = "false"
@@ -133,7 +134,8 @@ class SolverWrapper:
         if self.external_solver == "highs":
             self.solver = HighsCustom()
             self.solver.setOptionValue("solver", "choose")
-            self.solver.setOptionValue("threads", kwargs.get("threads", SolverWrapper.threads))
+            self.highs_threads = kwargs.get("threads", SolverWrapper.threads)
+            self.solver.setOptionValue("threads", self.highs_threads)
             self.solver.setOptionValue("time_limit", kwargs.get("time_limit", SolverWrapper.time_limit))
             self.solver.setOptionValue("presolve", kwargs.get("presolve", SolverWrapper.presolve))
             self.solver.setOptionValue("log_to_console", kwargs.get("log_to_console", SolverWrapper.log_to_console))
@@ -517,6 +519,13 @@ class SolverWrapper:
         # Otherwise, we call the function with a timeout
         # Apply any queued bound updates right before solving
         self._apply_pending_bound_updates()
+
+        if self.external_solver == "highs":
+            # HiGHS keeps one task scheduler per process, started with the thread count of the first solve, and refuses
+            # to run a model asking for another count (the status stays kNotset): restart it when the count changes
+            if SolverWrapper._highs_scheduler_threads not in (None, self.highs_threads):
+                highspy.Highs.resetGlobalScheduler(True)
+            SolverWrapper._highs_scheduler_threads = self.highs_threads
 
         if self.time_limit == float('inf') or (not self.use_also_custom_timeout):
             self.solver.optimize()
